@@ -368,7 +368,7 @@ def run(chk, repo, tier):
         return atom
     ok = False
     for t in [n for n in cfg.nodes.values() if n.kind == 'test' and n.ast is not None]:
-        lab = G_.edge_label(t.ast, has_datainfo(t.id))
+        lab = G_.edge_label(t.ast, has_datainfo(t.id), G_.resolver(cfg, t.id))
         if lab is None:
             continue
         for en in enc:
